@@ -30,6 +30,16 @@ def gen_docs(ctx, tier):
                 for k in [b"a", b"announce", b"inf", b"info ", b"infp", b"z", b"info\x00", b"comment"]:
                     if rng.random() < 0.4:
                         extras[k] = bengen.enc(bengen.rand_value(rng, 0, 3))
+                # keys the loader knows, at the WRONG level: a summary copy of info's own fields (same bytes,
+                # or a value of another type) next to "info", and an "info" key inside info is left to docgen
+                inner = root.v[b"info"].v if isinstance(root.v[b"info"].v, dict) else {}
+                if rng.random() < 0.45:
+                    for k in [b"name", b"name.utf-8", b"length", b"files", b"pieces", b"piece length", b"path", b"private"]:
+                        if rng.random() < 0.55:
+                            if k in inner and rng.random() < 0.8:
+                                extras[k] = d[inner[k].s:inner[k].e]
+                            else:
+                                extras[k] = bengen.enc(rng.choice([b"x" * 20, 7, 16384, [], {}, b""]))
                 extras[b"info"] = info_bytes
                 d = b"d" + b"".join(bengen.enc(k) + extras[k] for k in sorted(extras)) + b"e"
         docs.append(d)
@@ -82,7 +92,7 @@ def correspondence(ctx):
             broken.append({"what": "SHA-1 instances disagree", "case": c[:200], "crate": simpl.get(k), "gallina": smodel.get(k), "hashlib": want})
     return {
         "evaluations": len(cases) + len(hcases) + len(scases), "distinct_nontrivial": loaded,
-        "rule": "generated documents with random top-level keys before/after 'info' (nested containers, strings full of d/e/i/l/digits/':'), extra keys inside info; all 256 single bytes + random 20-byte strings for the hex form; SHA-1 on every length 0..200 + random; non-trivial = loadable document",
+        "rule": "generated documents with random top-level keys before/after 'info' (nested containers, strings full of d/e/i/l/digits/':'), extra keys inside info, the loader's own key names (name, length, files, pieces, piece length, ...) copied or mistyped at the top level next to 'info'; all 256 single bytes + random 20-byte strings for the hex form; SHA-1 on every length 0..200 + random; non-trivial = loadable document",
         "samples": [{"case": c[:300], "impl": impl.get(c.split()[0])} for c in cases[:3]],
         "distribution": {"documents": len(cases), "loaded": loaded, "hex_cases": len(hcases), "sha1_cases": len(scases)},
         "disagreements": len(dis), "findings": findings, "broken": broken[:10],
